@@ -13,6 +13,7 @@ pub mod c10;
 pub mod c11;
 pub mod c12;
 pub mod c13;
+pub mod c14;
 pub mod c15;
 pub mod c16;
 
@@ -36,6 +37,7 @@ pub fn all() -> Vec<Monitor> {
         Monitor { meta: &c11::META, run: c11::run, replay: c11::replay },
         Monitor { meta: &c12::META, run: c12::run, replay: c12::replay },
         Monitor { meta: &c13::META, run: c13::run, replay: c13::replay },
+        Monitor { meta: &c14::META, run: c14::run, replay: c14::replay },
         Monitor { meta: &c15::META, run: c15::run, replay: c15::replay },
         Monitor { meta: &c16::META, run: c16::run, replay: c16::replay },
     ]
